@@ -2,6 +2,8 @@
 B = "acnportal.acnsim.models.battery."
 E = "acnportal.acnsim.models.ev."
 S = "acnportal.acnsim.models.evse."
+SIM = "acnportal.acnsim.simulator.Simulator."
+NET = "acnportal.acnsim.network.charging_network.ChargingNetwork."
 EVT = "acnportal.acnsim.events.event."
 EQ = "acnportal.acnsim.events.event_queue.EventQueue."
 
@@ -21,7 +23,7 @@ BATTERY_FNS = [B + "Battery.__init__", B + "Battery.charge", B + "Battery.reset"
                B + "Linear2StageBattery._charge", B + "Linear2StageBattery._charge_stepwise"]
 SET_PILOT = [S + "BaseEVSE.set_pilot@EVSE", S + "BaseEVSE.set_pilot@DeadbandEVSE", S + "BaseEVSE.set_pilot@FiniteRatesEVSE"]
 
-SHARDS = {EQ + "get_current_events": 8, EQ + "add_events": 3, EQ + "__init__": 3, B + "Linear2StageBattery._charge": 6, B + "Linear2StageBattery._charge_stepwise": 2}
+SHARDS = {SIM + "run": 16, SIM + "_process_event": 4, EQ + "get_current_events": 8, EQ + "add_events": 3, EQ + "__init__": 3, B + "Linear2StageBattery._charge": 6, B + "Linear2StageBattery._charge_stepwise": 2}
 
 EVSE_FNS = [S + x for x in (
     "BaseEVSE.__init__", "EVSE.__init__", "DeadbandEVSE.__init__", "FiniteRatesEVSE.__init__",
@@ -50,13 +52,26 @@ PLAN = {
     ),
     "C01": dict(
         level="other",
+        functions=[SIM + "run", SIM + "_process_event", NET + "plugin", NET + "unplug", NET + "get_ev", S + "BaseEVSE.plugin", S + "BaseEVSE.unplug",
+                   EVT + "PluginEvent.__init__", EVT + "UnplugEvent.__init__", EVT + "RecomputeEvent.__init__", EVT + "Event.__lt__",
+                   EQ + "get_current_events", EQ + "add_event", EQ + "get_event", EQ + "empty"],
         bounded=[dict(module="rt.drivers", fn="sim_monitor", label="lifecycle clauses on whole simulations")],
-        text="BOUNDED so far: run-time contracts on the real Simulator over seeded scenarios check every clause of the property "
-             "(each session plugged once at arrival and unplugged once at departure, history sorted by time then precedence, occupancy at "
-             "every period equals [arrival, departure), queue empty / stations vacant / iteration = last event + 1 at the end).",
-        note="no obligation is proved for C01 yet; everything reported is bounded by the scenario space written in the evidence",
-        explanation="bounded run-time contract monitor only (rt.simcheck clauses C01.*)",
-        technique="run-time contract monitor on the real functions (bounded stand-in); deductive obligations pending",
+        text="PROVED (all networks, event sets, max_recompute values; no bound): the main loop of Simulator.run is verified against an inductive "
+             "invariant - every pending event is not in the past, pending plug-ins describe valid sessions, queue/registry representation "
+             "invariants - and a per-iteration step contract: the period counter advances by exactly one, the events of the period are popped "
+             "(all with timestamp = the period) recorded in history and applied in queue order (unplug < plug-in < recompute by the queue "
+             "contract of C11) before the scheduler precondition 'no event of this period is pending'; _process_event: a plug-in attaches the EV "
+             "to its station, records it and schedules exactly one fresh Unplug at ev.departure; an unplug vacates the station iff the session "
+             "matches; network plugin/unplug/get_ev with KeyError / StationOccupiedError frames; on normal return the queue is empty, nothing is "
+             "owed and the last recorded event is one period before the final counter. NOT PROVED: absence of StationOccupiedError for "
+             "non-overlapping sessions and termination (the occupancy <-> pending-unplug invariant I3/I4 of DESIGN 6 was not attempted); these "
+             "and the end-to-end lifecycle clauses are covered by the BOUNDED run-time monitor only.",
+        note="update_pilots / _update_schedules / _store_actual_charging_rates / _increase_width enter the loop proof through frame-only "
+             "contracts (what they may modify); the scheduler is an assumed contract (user code); events are not mutated while queued; "
+             "verbose=False (printing is not modelled)",
+        explanation="proved: run-loop invariant + step contract, _process_event, network plug/unplug, queue contracts; bounded: exception freedom, "
+                    "termination and the end-to-end lifecycle clauses (rt.simcheck C01.*)",
+        technique="contract-based deductive verification of the run loop (loop invariant + per-iteration step contract, pyvc/z3) + run-time contract monitor (bounded)",
     ),
     "C04": dict(
         level="other",
@@ -71,14 +86,35 @@ PLAN = {
     ),
     "C05": dict(
         level="other",
+        functions=[SIM + "run", SIM + "_process_event"],
         bounded=[dict(module="rt.drivers", fn="sim_monitor", label="scheduler invocation / observation / isolation clauses")],
-        text="BOUNDED so far: at every scheduler invocation of every seeded scenario the monitor checks the invocation condition "
-             "(iff event or max_recompute elapsed, once per period, after the period's events), every observed quantity against the "
-             "simulator's truth (period, datetime, active sessions, previous rates / pilots / peak, infrastructure, advertised limits) and "
-             "isolation (everything handed out is scribbled over and the simulator state digest must not change).",
-        note="no obligation is proved for C05 yet; bounded by the scenario space written in the evidence",
-        explanation="bounded run-time contract monitor only (rt.simcheck clauses C05.*)",
-        technique="run-time contract monitor on the real functions (bounded stand-in); deductive obligations pending",
+        text="PROVED (all event histories, all max_recompute values, every period; no bound): per-iteration step contract of Simulator.run over a "
+             "ghost log of scheduler invocations - the scheduler is invoked in a period if and only if an event was processed in it, or a schedule "
+             "was still owed (resumed run), or max_recompute is set and the last invocation is None or at least max_recompute periods ago (the "
+             "invariant '_last_schedule_update = period of the last invocation' makes the code's test the property's test); at most once per period; "
+             "the invocation is logged for exactly the current period; and the scheduler's precondition 'every event of this period has been "
+             "popped and applied' is discharged at the call site. BOUNDED: what the scheduler observes through Interface (period, datetime, active "
+             "sessions, previous rates/pilots/peak, infrastructure, advertised limits) and isolation (everything handed out is scribbled over, the "
+             "simulator state digest must not change) are checked by the run-time monitor at every invocation of every seeded scenario.",
+        note="the Interface accessors (deepcopy, numpy, SessionInfo construction) are not under deductive contract yet: observation and isolation "
+             "clauses are bounded; the scheduler itself is an assumed contract",
+        explanation="proved: invocation condition / once per period / after the period's events (run-loop step contract); bounded: observed values and isolation (rt.simcheck C05.*)",
+        technique="contract-based deductive verification of the invocation condition (ghost call log, loop step contract, pyvc/z3) + run-time contract monitor (bounded) for observations and isolation",
+    ),
+    "C09": dict(
+        level="other",
+        functions=[SIM + "run"],
+        bounded=[dict(module="rt.drivers", fn="resume_monitor", label="interrupt at every period, resume directly and through JSON")],
+        text="PROVED (every period as interruption point, all simulations; no bound): exceptional postcondition of Simulator.run - in the state a "
+             "scheduler exception leaves behind, run()'s own precondition holds again, the loop guard is true (also when the interrupted period "
+             "was the period of the last event), the schedule of that period is still owed and no event of that period is pending, so a second "
+             "run() pops nothing and reaches the same scheduler call in the same state; counters advance only after the pilots were applied "
+             "(step contract). BOUNDED: equality of the completed trajectory with the uninterrupted run, and the whole JSON part (loaded object "
+             "carries the complete state, shared EV objects stay shared, resumed run equal) - the serialisers are reflective code outside the "
+             "verifier's reach - are monitored with every period of every seeded scenario as interruption point.",
+        note="the scheduler is assumed to be a function of what it observes; JSON / registry code (base.py, _to_dict/_from_dict) is only monitored",
+        explanation="proved: resumability of the interrupted state (exceptional postcondition of run); bounded: trajectory equality and JSON round trip (rt.drivers.resume_monitor)",
+        technique="contract-based deductive verification (exceptional postcondition re-establishing the precondition, pyvc/z3) + run-time monitor (bounded, exhaustive over interruption points of seeded scenarios)",
     ),
     "C11": dict(
         level="other",
@@ -150,3 +186,11 @@ PLAN = {
 }
 
 NOT_CLAIMED = {}
+
+
+def all_verified_functions():
+    """every function whose body is verified by some claimed check (a callee contract used elsewhere is discharged there)"""
+    out = set()
+    for P in PLAN.values():
+        out.update(P.get("functions", []))
+    return out
